@@ -201,34 +201,59 @@ def _xbin(op, a, b):
     return BIN[op](a, b)
 
 
-def num(prog, env, exact=False):
+class _RatEnv(dict):
+    """the environment with int values of x, y read as exact rationals"""
+
+    def __getitem__(self, k):
+        v = dict.__getitem__(self, k)
+        if k in ("x", "y") and isinstance(v, int) and not isinstance(v, bool):
+            return F(v)
+        return v
+
+
+def num(prog, env, exact=False, fold=None, path=()):
     """The program on plain numbers.  exact=True is the same computation with the dyadic float
     constants and int/int quotients kept as exact rationals (a float here is only ever a
-    by-product; // and % amplify its rounding error to a whole unit)."""
+    by-product; // and % amplify its rounding error to a whole unit).  fold: paths of binary
+    sites at which the three recorded shortcuts are emulated ON NUMBERS (x // 1 -> x,
+    x % 1 -> 0, 0 ** x -> 0) -- the plain computation 'as the findings distort it'."""
     k = prog[0]
     if k == "leaf":
+        if exact:       # composite leaf kinds divide inside their builder: give them rationals
+            env = _RatEnv(env)
         v = KINDS[prog[1]][1](env)
+        if exact and isinstance(v, F) and v.denominator == 1:
+            v = int(v)  # integral values keep their int-ness (shifts, bitwise operators, indexing)
         return F(v) if exact and isinstance(v, float) else v
     if k == "bin":
-        a, b = num(prog[2], env, exact), num(prog[3], env, exact)
+        a = num(prog[2], env, exact, fold, path + (2,))
+        b = num(prog[3], env, exact, fold, path + (3,))
+        if fold and path in fold:
+            if prog[1] == "//" and b == 1:
+                return a
+            if prog[1] == "%" and b == 1:
+                return 0
+            if prog[1] == "**" and a == 0 and not isinstance(a, bool):
+                return 0
         return _xbin(prog[1], a, b) if exact else BIN[prog[1]](a, b)
     if k == "un":
-        return UN[prog[1]](num(prog[2], env, exact))
+        return UN[prog[1]](num(prog[2], env, exact, fold, path + (2,)))
     if k == "cmp":
-        return CMPM[prog[1]](num(prog[2], env, exact), num(prog[3], env, exact))
+        return CMPM[prog[1]](num(prog[2], env, exact, fold, path + (2,)),
+                             num(prog[3], env, exact, fold, path + (3,)))
     if k == "logic":
-        a = bool(num(prog[2], env, exact))
+        a = bool(num(prog[2], env, exact, fold, path + (2,)))
         if prog[1] == "not_":
             return not a
-        b = bool(num(prog[3], env, exact))
+        b = bool(num(prog[3], env, exact, fold, path + (3,)))
         return (a and b) if prog[1] == "and_" else (a or b)
     if k == "call":
-        args = [num(c, env, exact) for c in prog[2:]]
+        args = [num(c, env, exact, fold, path + (i + 2,)) for i, c in enumerate(prog[2:])]
         if prog[1] == "kw":
             return env["g"](args[0], k=args[1])
         return env["f"](*args)
     if k == "index":
-        return env["a"][num(prog[1], env, exact)]
+        return env["a"][num(prog[1], env, exact, fold, path + (1,))]
     if k == "attr":
         return env["o"].attr
     raise ValueError(k)
@@ -379,6 +404,8 @@ def c_program(ctx, case):
                     finding = _which_site(prog, st, env, want)
             except Exception:
                 finding = None
+            if finding is None and has_bool(prog):
+                finding = _folded_site(prog, st, env, got)
         ctx.fail("C03.program", case, f"value:{_psig(prog)}",
                  f"program {show(prog)} built {tree!s} [{G.src(tree)}]; env x={env['x']} y={env['y']}: "
                  f"tree evaluates to {short(got)}, plain computation gives {want!r}", finding=finding)
@@ -415,19 +442,48 @@ def _refusal_finding(ctx, prog):
     return None
 
 
-def _which_site(prog, st, env, want):
-    """Attribute to one finding only if neutralising that *single* site class explains it."""
+def _folded_site(prog, st, env, got):
+    """Second explanation test, for programs that cannot be rebuilt with raw nodes (a bool next
+    to the site makes the raw expression refuse it): the tree's value equals the plain
+    computation with that ONE class of sites folded on numbers the way the finding folds it."""
+    if got[0] != "v":
+        return None
     for fid, opname in ((KF_FLOORDIV1, "//"), (KF_MOD1, "%"), (KF_ZEROPOW, "**")):
         raw = frozenset(pth for pth, o in st if o == opname)
-        if not raw:
+        if not raw or not _site_condition(prog, raw, opname, env):
             continue
-        try:
-            t = sym(prog, raw)
-            g = refsem.outcome(lambda: refsem.ev(t, env))
-        except Exception:
-            continue
-        if agrees(g, prog, env, want, t) and _site_condition(prog, raw, opname, env):
-            return fid
+        for exact in (False, True):
+            try:
+                w = num(prog, env, exact=exact, fold=raw)
+            except RecursionError:
+                raise
+            except Exception:  # noqa: BLE001
+                continue
+            if refsem.values_equal(got[1], w):
+                return fid
+    return None
+
+
+def _which_site(prog, st, env, want):
+    """Attribute to a finding only if neutralising that site class explains it -- a single class
+    first; then two or three together (x // True over y % 1.0 meets two shortcuts at once), each
+    of which must satisfy its own condition.  The id returned is the first class of the set."""
+    classes = ((KF_FLOORDIV1, "//"), (KF_MOD1, "%"), (KF_ZEROPOW, "**"))
+    for r in (1, 2, 3):
+        for combo in itertools.combinations(classes, r):
+            raws = [frozenset(pth for pth, o in st if o == opname) for _, opname in combo]
+            if not all(raws):
+                continue
+            raw = frozenset().union(*raws)
+            try:
+                t = sym(prog, raw)
+                g = refsem.outcome(lambda: refsem.ev(t, env))
+            except Exception:
+                continue
+            if agrees(g, prog, env, want, t) \
+                    and all(_site_condition(prog, rw, opname, env)
+                            for rw, (_, opname) in zip(raws, combo)):
+                return combo[0][0]
     return None
 
 
